@@ -1262,6 +1262,10 @@ def concrete_fallback(func, args, kwargs):
     real_kwargs = tree_map(demote, kwargs)
     with _disable_current_modes():
         out = func(*real_args, **real_kwargs)
+        if 'empty' in str(func):
+            # uninitialised memory (new_empty / new_empty_strided / empty_like ... used by autograd to allocate buffers): its content is garbage,
+            # sometimes NaN, which would be lifted as a poison value; a deterministic zero fill is a valid choice of "any content"
+            out = tree_map(lambda o: o.zero_() if isinstance(o, torch.Tensor) else o, out)
 
     def promote(o):
         return SymTensor.from_array(to_arr(o), o.dtype) if isinstance(o, torch.Tensor) else o
